@@ -627,6 +627,13 @@ func main() {
 	r.CasesProc("cbc/checkptr", r.N(60, 1200), ev.Opt{Bin: "race", Procs: 8}, cbcCase)
 	r.CasesProc("gcm/checkptr", r.N(60, 1200), ev.Opt{Bin: "race", Procs: 8}, gcmCase)
 	r.CasesProc("stream/checkptr", r.N(80, 1600), ev.Opt{Bin: "race", Procs: 8}, streamCase)
+	// the same three workloads on parallel workers of a -race child: state shared between
+	// independent calls (lazily built tables, pooled buffers, batched salts) is reported from
+	// the happens-before relation, and the first calls of the process are made concurrently
+	rp := ev.Opt{Bin: "race", Procs: 4, Workers: 8, AlwaysLog: true, HangViolation: true, MaxCaseSeconds: 120}
+	r.CasesProc("cbc/race-parallel", r.N(160, 3000), rp, cbcCase)
+	r.CasesProc("gcm/race-parallel", r.N(160, 3000), rp, gcmCase)
+	r.CasesProc("stream/race-parallel", r.N(160, 3000), rp, streamCase)
 
 	r.Require("cbc_round_trips", 3000)
 	r.Require("cbc_format_checked", 3000)
